@@ -192,6 +192,14 @@ impl VarIntEncoder {
     }
 }
 
+/// Capacity hint for a decoded sequence. `count` is an untrusted value read from the input;
+/// every encoded element occupies at least one byte, so the number of remaining input bytes
+/// bounds how many elements can actually follow.
+#[inline]
+fn sequence_capacity(count: u64, remaining_bytes: usize) -> usize {
+    cmp::min(count, remaining_bytes as u64) as usize
+}
+
 // LEB128 implementations
 impl VarIntEncoder {
     fn encode_leb128_u64(&self, mut value: u64) -> Result<Vec<u8>> {
@@ -324,7 +332,7 @@ impl VarIntEncoder {
         let (count, count_bytes) = self.decode_leb128_u64(&data[offset..])?;
         offset += count_bytes;
         
-        let mut result = Vec::with_capacity(count as usize);
+        let mut result = Vec::with_capacity(sequence_capacity(count, data.len() - offset));
         
         // Read values
         for _ in 0..count {
@@ -343,7 +351,7 @@ impl VarIntEncoder {
         let (count, count_bytes) = self.decode_leb128_u64(&data[offset..])?;
         offset += count_bytes;
         
-        let mut result = Vec::with_capacity(count as usize);
+        let mut result = Vec::with_capacity(sequence_capacity(count, data.len() - offset));
         
         // Read values
         for _ in 0..count {
@@ -454,7 +462,7 @@ impl VarIntEncoder {
             return Ok(Vec::new());
         }
         
-        let mut result = Vec::with_capacity(count as usize);
+        let mut result = Vec::with_capacity(sequence_capacity(count, data.len() - offset));
         
         // Read first value
         let (first_value, first_bytes) = self.decode_leb128_u64(&data[offset..])?;
@@ -492,7 +500,7 @@ impl VarIntEncoder {
             return Ok(Vec::new());
         }
         
-        let mut result = Vec::with_capacity(count as usize);
+        let mut result = Vec::with_capacity(sequence_capacity(count, data.len() - offset));
         
         // Read first value
         let (first_value, first_bytes) = self.decode_leb128_i64(&data[offset..])?;
@@ -564,7 +572,7 @@ impl VarIntEncoder {
         let (count, count_bytes) = self.decode_leb128_u64(&data[offset..])?;
         offset += count_bytes;
         
-        let mut result = Vec::with_capacity(count as usize);
+        let mut result = Vec::with_capacity(sequence_capacity(count, data.len() - offset));
         let mut remaining = count;
         
         while remaining > 0 {
@@ -686,7 +694,7 @@ impl VarIntEncoder {
         let (count, count_bytes) = self.decode_leb128_u64(&data[offset..])?;
         offset += count_bytes;
         
-        let mut result = Vec::with_capacity(count as usize);
+        let mut result = Vec::with_capacity(sequence_capacity(count, data.len() - offset));
         
         // Read values
         for _ in 0..count {
@@ -705,7 +713,7 @@ impl VarIntEncoder {
         let (count, count_bytes) = self.decode_leb128_u64(&data[offset..])?;
         offset += count_bytes;
         
-        let mut result = Vec::with_capacity(count as usize);
+        let mut result = Vec::with_capacity(sequence_capacity(count, data.len() - offset));
         
         // Read values
         for _ in 0..count {
